@@ -222,7 +222,7 @@ def replay_histories(chk, drv, work, tier):
 
     def one(job):
         mode, sh, sp, tp, gc = job
-        rc, err, to = _run_drv(drv, [mode, sp, tp, gc], timeout=1500)
+        rc, err, to = _run_drv(drv, [mode, sp, tp, gc], timeout=600 if tier == "quick" else 1700)
         _close_trace(tp, rc, to)
         if rc == 2:
             return job, ("error", None, "driver usage/IO error: " + err, None)
@@ -329,7 +329,7 @@ def random_histories(chk, drv, work, tier):
 
     def drive(j, path):
         rc, err, to = _run_drv(drv, ["random", j["seed"], j["steps"], path, j["gc"], j["maxlive"], j["profile"]],
-                               timeout=1200, env={"GC_FRUGAL": "1"} if j["frugal"] else None)
+                               timeout=300 if tier == "quick" else 1200, env={"GC_FRUGAL": "1"} if j["frugal"] else None)
         _close_trace(path, rc, to)
         return rc, err
 
